@@ -493,7 +493,12 @@ func runScenario(sc scenario, e *env) (res result) {
 	// every client that is still there looks at its socket once more
 	for _, c := range append(append([]*cli{}, r.clis...), late...) {
 		if !c.gone && c.id >= 0 && gaterig.Count(rig.Log.Events(), "CliEOF", c.id) == 0 {
-			r.expectEOF(c)
+			tunnel := c.id < len(sc.Conns) && (sc.Conns[c.id].Phase == "tunnel" || sc.Conns[c.id].Phase == "tundial")
+			if tunnel {
+				r.expectEOF(c)
+			} else {
+				r.expectResponseOrEOF(c, false) // a response that was written while nobody was reading is still a response
+			}
 		}
 	}
 	regsCh := make(chan int, 1)
